@@ -263,6 +263,7 @@ class Check:
         for lst in by_sig.values():
             lst.sort(key=lambda v: (v['family'], v['i']))
         new, known_seen, harness_errors = [], {}, []
+        replays = {}
 
         def matches(k, v):
             if k.get('property') != self.prop and not v['sig'].startswith('C15:'):
@@ -289,7 +290,11 @@ class Check:
             # replay the first few of this class twice, alone, before reporting
             confirmed = []
             for v in rest[:2]:
-                a, b = self.rerun(v), self.rerun(v)
+                # one case can carry many classes: its two replays are shared between them
+                key = json.dumps([v['harness'], v['flavour'], v['family'], v['i'], v.get('args', []), v.get('env', {})], sort_keys=True)
+                if key not in replays:
+                    replays[key] = (self.rerun(v), self.rerun(v))
+                a, b = replays[key]
                 if sig in a and sig in b:
                     confirmed.append(v)
                 elif sig.startswith('C15:') and any(s.startswith('C15:') for s in a) and any(s.startswith('C15:') for s in b):
